@@ -545,3 +545,26 @@ def witness(cfg: CFG, prev, node: int) -> Optional[List[Node]]:
                 cur = prev[cur]
             return list(reversed(out))
     return None
+
+
+def must_facts(cfg: CFG, transfer: Callable[[Node, frozenset], frozenset], join=None) -> Dict[int, frozenset]:
+    """Forward dataflow over the CFG.  `transfer(node, in)` gives the node's OUT set; `join(list of OUT sets)` merges
+    predecessors (default: intersection = facts that hold on EVERY path reaching a node); unreached nodes are left out."""
+    join = join or (lambda ins: frozenset.intersection(*ins))
+    IN: Dict[int, Optional[frozenset]] = {n.id: None for n in cfg.nodes}
+    OUT: Dict[int, Optional[frozenset]] = {n.id: None for n in cfg.nodes}
+    IN[cfg.entry] = frozenset()
+    work = [cfg.entry]
+    while work:
+        x = work.pop()
+        if x != cfg.entry:
+            ins = [OUT[p] for p in cfg.pred[x] if OUT[p] is not None]
+            if not ins:
+                continue
+            new_in = join(ins)
+            IN[x] = new_in
+        out = transfer(cfg.nodes[x], IN[x])
+        if out != OUT[x]:
+            OUT[x] = out
+            work.extend(cfg.succ[x])
+    return {k: v for k, v in IN.items() if v is not None}
